@@ -36,9 +36,24 @@ class Verdict:
         self.ok, self.why, self.node = ok, why, node
 
 
+_STORED_MODE = [False]
+
+CHANGING_FUNCS = {"round", "around", "round_", "rint", "floor", "ceil", "trunc", "clip", "abs",
+                  "absolute", "fabs", "real", "imag", "conj", "conjugate", "transpose", "swapaxes",
+                  "moveaxis", "nan_to_num", "sqrt", "exp", "log", "negative", "sign", "tril", "triu",
+                  "flip", "sort", "float32", "complex64", "float16"}
+
+
 def _depends_on_params(du: DefUse, nid: int, e: ast.AST, params: Set[str], depth: int = 0) -> bool:
     if depth > 8:
         return True
+    if _STORED_MODE[0]:
+        for x in ast.walk(e):
+            if isinstance(x, ast.Attribute) and (dotted(x) or "").startswith("self."):
+                return True
+            if isinstance(x, ast.Call) and isinstance(x.func, ast.Attribute) \
+                    and x.func.attr in SOURCE_GETTERS:
+                return True
     for x in ast.walk(e):
         if isinstance(x, ast.Name) and isinstance(x.ctx, ast.Load):
             if x.id in params and any("param" in [s[0] for s in d.sel] for d in du.reaching(nid, x.id)):
@@ -50,11 +65,15 @@ def _depends_on_params(du: DefUse, nid: int, e: ast.AST, params: Set[str], depth
     return False
 
 
+SOURCE_GETTERS = ("get_mpo_tensor", "get_cap_tensor", "get_initial_tensor", "get_lam_tensor")
+
+
 def preserved(u: Unit, du: DefUse, nid: int, e: ast.AST, params: Set[str],
-              seen: Optional[Set[int]] = None, depth: int = 0) -> Verdict:
+              seen: Optional[Set[int]] = None, depth: int = 0, stored_ok: bool = False) -> Verdict:
     """Is the value of e (at node nid) one of the arguments, passed through value-preserving
     conversions only (or a default that does not depend on the arguments)?"""
     seen = seen if seen is not None else set()
+    _STORED_MODE[0] = stored_ok
     if depth > 10:
         return Verdict(None, "definition chain too long")
     if isinstance(e, ast.Constant):
@@ -62,6 +81,8 @@ def preserved(u: Unit, du: DefUse, nid: int, e: ast.AST, params: Set[str],
     if isinstance(e, ast.Name):
         ds = du.reaching(nid, e.id)
         if not ds:
+            if u.parent is None:
+                return Verdict(True)       # module-level constant: does not depend on the arguments
             return Verdict(None, f"`{e.id}` has no definition here")
         for d in ds:
             if d.id in seen:
@@ -75,41 +96,47 @@ def preserved(u: Unit, du: DefUse, nid: int, e: ast.AST, params: Set[str],
             if "aug" in kinds:
                 return Verdict(False, f"`{norm(d.stmt) if d.stmt is not None else e.id}` changes the "
                                f"value in place", d.stmt)
-            v = preserved(u, du, d.node, d.value, params, seen, depth + 1)
+            v = preserved(u, du, d.node, d.value, params, seen, depth + 1, stored_ok)
             if v.ok is not True:
                 if v.node is None and d.stmt is not None:
                     v.node = d.stmt
                 return v
         return Verdict(True)
     if isinstance(e, (ast.Subscript, ast.Starred)):
-        return preserved(u, du, nid, e.value, params, seen, depth + 1)
+        return preserved(u, du, nid, e.value, params, seen, depth + 1, stored_ok)
     if isinstance(e, (ast.Tuple, ast.List)):
         for x in e.elts:
-            v = preserved(u, du, nid, x, params, seen, depth + 1)
+            v = preserved(u, du, nid, x, params, seen, depth + 1, stored_ok)
             if v.ok is not True:
                 return v
         return Verdict(True)
     if isinstance(e, ast.IfExp):
         for x in (e.body, e.orelse):
-            v = preserved(u, du, nid, x, params, seen, depth + 1)
+            v = preserved(u, du, nid, x, params, seen, depth + 1, stored_ok)
             if v.ok is not True:
                 return v
         return Verdict(True)
     if isinstance(e, ast.Attribute):
         if e.attr in ("real", "imag", "T"):
             return Verdict(False, f"`{norm(e)}` keeps only a part / another arrangement of the value", e)
+        if stored_ok and (dotted(e) or "").startswith("self."):
+            return Verdict(True)
         return Verdict(None, f"`{norm(e)}`")
     if isinstance(e, ast.Call):
         fn = (dotted(e.func) or "")
         last = fn.split(".")[-1] if fn else (e.func.attr if isinstance(e.func, ast.Attribute) else "")
         if last in DEFAULT_FUNCS:
             return Verdict(True)
+        if stored_ok and last in SOURCE_GETTERS:
+            return Verdict(True)
+        if last in CHANGING_FUNCS and _depends_on_params(du, nid, e, params):
+            return Verdict(False, f"`{norm(e)[:60]}` changes the values", e)
         if isinstance(e.func, ast.Attribute) and dotted(e.func.value) not in ("np", "numpy") \
                 and last in PRESERVING_METHODS:
-            return preserved(u, du, nid, e.func.value, params, seen, depth + 1)
+            return preserved(u, du, nid, e.func.value, params, seen, depth + 1, stored_ok)
         if last in PRESERVING_FUNCS | CONTAINER_BUILDERS and e.args:
             for a in (e.args if last in CONTAINER_BUILDERS else e.args[:1]):
-                v = preserved(u, du, nid, a, params, seen, depth + 1)
+                v = preserved(u, du, nid, a, params, seen, depth + 1, stored_ok)
                 if v.ok is not True:
                     return v
             return Verdict(True)
@@ -218,3 +245,60 @@ def containers_keep_values(prog: Program, chk: Check, rule: str, which: Optional
                         v.node if (v.node is not None and hu is u) else (st if hu is u else None))
     if n < floor:
         raise AnalysisError(f"{rule}: only {n} stored values found")
+
+
+MOVES = [("process_tensor:SimpleProcessTensor.export", 3),
+         ("process_tensor:import_process_tensor", 3)]
+
+
+def moves_keep_values(prog: Program, chk: Check, rule: str) -> None:
+    """export / import move tensors from one process tensor to another: what a setter of the
+    target receives is what a getter (or the stored list) of the source held, through
+    value-preserving conversions only."""
+    for (q, floor) in MOVES:
+        u = prog.unit(q)
+        du = DefUse(u, CFG(u.node, exc_edges=False))
+        chk.saw(u, du.cfg)
+        n = 0
+        for nd in du.cfg.nodes:
+            if nd.copy_of:
+                continue
+            for c in nd.calls():
+                if not (isinstance(c.func, ast.Attribute) and c.func.attr.startswith("set_")
+                        and c.func.attr.endswith("_tensor") and c.args):
+                    continue
+                n += 1
+                v = preserved(u, du, nd.id, c.args[-1], set(u.params), stored_ok=True)
+                chk.add(rule, u, f"{norm(c.func)}(.., {norm(c.args[-1])[:40]})", v.ok,
+                        "the source's tensor, through value-preserving conversions only" if v.ok else
+                        (f"{v.why}: the copy differs from the original" if v.ok is False
+                         else f"origin not decided: {v.why}"), v.node or c)
+        if n < floor:
+            raise AnalysisError(f"{rule}: {q} hands only {n} tensors to setters (confirmed by hand: {floor})")
+
+    # the HDF5 helpers: what is written into / read from the flat dataset is the tensor itself
+    for (q, kind) in (("process_tensor:_set_data_and_shape", "store"),
+                      ("process_tensor:_get_data_and_shape", "return")):
+        u = prog.unit(q)
+        du = DefUse(u, CFG(u.node, exc_edges=False))
+        chk.saw(u, du.cfg)
+        n = 0
+        for nd in du.cfg.nodes:
+            if nd.copy_of or nd.kind != "stmt":
+                continue
+            st = nd.ast
+            if kind == "store" and isinstance(st, ast.Assign) and any(
+                    isinstance(t, ast.Subscript) and dotted(t.value) == "data" for t in st.targets):
+                e = st.value
+            elif kind == "return" and isinstance(st, ast.Return) and st.value is not None:
+                e = st.value
+            else:
+                continue
+            n += 1
+            v = preserved(u, du, nd.id, e, set(u.params))
+            chk.add(rule, u, f"{'data[step] <- ' if kind == 'store' else 'return '}{norm(e)[:40]}", v.ok,
+                    "the tensor, flattened / reshaped only" if v.ok else
+                    (f"{v.why}: the file does not hold / return the tensor it was given"
+                     if v.ok is False else f"origin not decided: {v.why}"), v.node or st)
+        if n < 1:
+            raise AnalysisError(f"{rule}: {q} no longer {'stores into data' if kind == 'store' else 'returns a tensor'}")
